@@ -420,6 +420,12 @@ static int mmd1_load(struct module_data *m, HIO_HANDLE *f, const int start)
 			block.lines = hio_read8(f);
 		}
 
+		/* the header was validated in the first pass; a stream that
+		 * now ends early must not enlarge the block */
+		if (block.numtracks > mod->chn || block.lines + 1 > max_lines) {
+			D_(D_CRIT "block %d changed size", i);
+			goto err_cleanup;
+		}
 		size = block.numtracks * (block.lines + 1) * (ver ? 4 : 3);
 
 		if (mmdc) {
